@@ -88,6 +88,15 @@ struct LifeH : public ykmc::Harness {
                     std::vector<std::pair<std::string, tree_instance*>> l;
                     status ls = list_storages(l);
                     if (ls != status::WARN_NOT_EXIST || !l.empty()) note("life:storage_survived", "cycle " + std::to_string(cycle) + ": a storage of the previous cycle is still listed after init()");
+                    {
+                        // before any session of this cycle exists: one epoch period must advance the epoch (a slot that still
+                        // advertises a begin epoch of the previous cycle would stall it; entering the slots below would hide that)
+                        Epoch e0 = epoch_management::get_epoch();
+                        bool alive = ykmc::tick(0, 1);
+                        Epoch e1 = epoch_management::get_epoch();
+                        if (!alive) note("life:epoch_thread_exited", "cycle " + std::to_string(cycle) + ": the epoch thread terminated right after init()");
+                        else if (e1 != e0 + 1) note("life:epoch_not_advancing", "cycle " + std::to_string(cycle) + ": no session was opened in this cycle yet, one epoch period passed, but the epoch went " + std::to_string(e0) + " -> " + std::to_string(e1));
+                    }
                     std::vector<Token> toks;
                     for (int k = 0; k < YAKUSHIMA_MAX_PARALLEL_SESSIONS; ++k) {
                         Token t{};
